@@ -28,7 +28,12 @@ ASSUMPTIONS = ["segmentation is simulated at the socket API (recv return "
                "identified by its exact bytes (re-packed on delivery)"]
 REQUIRED = ["reads", "delivered", "cuts_inside_header", "cuts_inside_body",
             "held_partial", "ctl_cases", "sw_cases", "over_2048",
-            "handshake_streams", "reads_inside_a_handler", "hello_with_body"]
+            "handshake_streams", "reads_inside_a_handler", "hello_with_body",
+            "moments_with_several_partial_messages", "handlers_that_raised",
+            "sw_first_read_while_connecting", "sw_over_8192",
+            "handshake_prefixes_segmented",
+            "ctl_reads_filled_with_header_only_messages",
+            "sw_reads_filled_with_header_only_messages"]
 TIMEOUT = {"quick": 900, "thorough": 7200}
 
 _cache = {}
@@ -68,6 +73,16 @@ def make_stream (side, seed, big):
       msgs.append(ofgen.gen_message(rng, "echo_request", payload_lens=(0, 3, 20)).pack())
     _cache[key] = msgs
     return msgs
+  if big == "tiny":
+    # nothing but header-only messages: one read completes as many messages
+    # as it has room for (256 in the controller's 2048 octets, 1024 in the
+    # switch worker's 8192)
+    n = rng.choice([255, 256, 257, 300, 1023, 1024, 1025, 3000] if side == "sw"
+                   else [255, 256, 257, 300, 511, 512, 513, 1025])
+    types = [2, 3, 5, 7, 18] if side == "sw" else [2, 3, 19, 19]
+    msgs = [struct.pack("!BBHL", 1, rng.choice(types), 8, i) for i in range(n)]
+    _cache[key] = msgs
+    return msgs
   if big == "many":
     # many short messages, so that a single read completes dozens of them
     n = rng.choice([13, 16, 17, 31, 32, 33, 64, 65, rng.randrange(13, 200)])
@@ -100,88 +115,97 @@ def delivered_form (m):
   return m
 
 
+class HandlerFails (RuntimeError):
+  pass
+
+
 class Recorder (object):
-  def __init__ (self):
+  def __init__ (self, raise_at=()):
     self.got = []
-  def ctl_handler (self, con, msg):
+    self.raise_at = set(raise_at)
+    self.raised = 0
+  def _rec (self, msg):
     self.got.append(msg.pack())
-  def sw_handler (self, conn, msg):
-    self.got.append(msg.pack())
+    if len(self.got) - 1 in self.raise_at:
+      # a handler that fails after having seen its message: the messages
+      # behind it in the same read are still to be delivered
+      self.raised += 1
+      raise HandlerFails("handler of message #%d fails on purpose" % (len(self.got) - 1))
+  def ctl_handler (self, con, msg): self._rec(msg)
+  def sw_handler (self, conn, msg): self._rec(msg)
 
 
-def run_case (case, rep):
-  side = case["side"]
-  msgs = make_stream(side, case["seed"], case.get("big", False))
-  stream = b"".join(msgs)
-  exp = [delivered_form(m) for m in msgs]
-  if exp != msgs: rep.count("hello_with_body")
-  cuts = sorted(set(c for c in case["cuts"] if 0 < c < len(stream)))
-  bounds = [0]
-  for m in msgs: bounds.append(bounds[-1] + len(m))
-  def fire (key, what):
-    rep.violation("C02 %s %s" % (side, key), what, case)
-  rec = Recorder()
-  of_01 = boot()
-  if side == "ctl":
-    sock = simnet.FakeSocket("c02")
-    con = of_01.Connection(sock)
-    con.handlers = [rec.ctl_handler] * 32
-    def pump ():
-      r = con.read()
-      return r
-    def residual (): return bytes(con.buf)
-    limit = 2048
-  else:
-    import pox.lib.ioworker as iow
-    import pox.datapaths.switch as sw
-    sock = simnet.FakeSocket("c02")
-    loop = getattr(run_case, "_loop", None)
-    if loop is None:
-      loop = iow.RecocoIOLoop()
-      run_case._loop = loop
-    worker = iow.RecocoIOWorker(sock)
-    worker.pinger = loop.pinger
-    worker.on_close = lambda w: None
-    conn = sw.OFConnection(worker)
-    conn.set_message_handler(rec.sw_handler)
-    def pump ():
-      worker._do_recv(loop)
-      return not worker.closed
-    def residual (): return bytes(worker.receive_buf)
-    limit = loop._BUF_SIZE
-  # classify cuts
-  inside_hdr = inside_body = 0
-  for c in cuts:
-    for i in range(len(msgs)):
-      if bounds[i] < c < bounds[i + 1]:
-        if c - bounds[i] < 8: inside_hdr += 1
-        else: inside_body += 1
-  if inside_hdr: rep.count("cuts_inside_header", inside_hdr)
-  if inside_body: rep.count("cuts_inside_body", inside_body)
-  if len(stream) > 2048 and side == "ctl": rep.count("over_2048")
-  segs = []
-  prev = 0
-  for c in cuts + [len(stream)]:
-    segs.append(stream[prev:c]); prev = c
-  ok = True
-  for seg in segs:
-    if not seg: continue
+class Endpoint (object):
+  """One connection under observation: the real controller-side Connection or
+  the real switch-side IOWorker + OFConnection on a scripted socket, a
+  recording handler, and the oracle over the bytes pulled so far."""
+  def __init__ (self, side, msgs, rep, fire, connecting=False, raise_at=(), tag=""):
+    self.side = side; self.msgs = msgs; self.rep = rep; self.fire = fire
+    self.stream = b"".join(msgs)
+    self.exp = [delivered_form(m) for m in msgs]
+    self.bounds = [0]
+    for m in msgs: self.bounds.append(self.bounds[-1] + len(m))
+    self.rec = Recorder(raise_at)
+    self.tag = tag
+    self.ok = True
+    self.max_per_read = 0
+    of_01 = boot()
+    if side == "ctl":
+      self.sock = simnet.FakeSocket("c02" + tag)
+      self.con = of_01.Connection(self.sock)
+      self.con.handlers = [self.rec.ctl_handler] * 32
+    else:
+      import pox.lib.ioworker as iow
+      import pox.datapaths.switch as sw
+      self.sock = simnet.FakeSocket("c02" + tag)
+      loop = getattr(run_case, "_loop", None)
+      if loop is None:
+        loop = iow.RecocoIOLoop()
+        run_case._loop = loop
+      self.loop = loop
+      self.worker = iow.RecocoIOWorker(self.sock)
+      self.worker.pinger = loop.pinger
+      self.worker.on_close = lambda w: None
+      self.conn = sw.OFConnection(self.worker)
+      self.conn.set_message_handler(self.rec.sw_handler)
+      if connecting:
+        # an outgoing connection whose completion is noticed on the first
+        # read (the switch side's own workers start like this)
+        self.worker._connecting = True
+        rep.count("sw_first_read_while_connecting")
+
+  def pump (self):
+    if self.side == "ctl": return self.con.read()
+    self.worker._do_recv(self.loop)
+    return not self.worker.closed
+
+  def residual (self):
+    return bytes(self.con.buf) if self.side == "ctl" else bytes(self.worker.receive_buf)
+
+  def feed (self, seg):
+    """Returns False once a violation was reported for this endpoint."""
+    if not self.ok: return False
+    if not seg: return True
+    fire = self.fire; rec = self.rec; msgs = self.msgs; exp = self.exp
+    bounds = self.bounds; sock = self.sock; stream = self.stream
     sock.feed(seg)
     guard = 0
-    while sock.rx and ok:
+    while sock.rx and self.ok:
       guard += 1
       if guard > len(stream) + 10:
         fire("read makes no progress", "socket still has %d bytes" % len(sock.rx))
-        ok = False; break
+        self.ok = False; break
+      before = len(rec.got)
       try:
-        r = pump()
+        r = self.pump()
       except Exception:
-        fire("read raises", traceback.format_exc()[-600:]); ok = False; break
-      rep.count("reads")
+        fire("read raises", traceback.format_exc()[-600:]); self.ok = False; break
+      self.rep.count("reads")
+      self.max_per_read = max(self.max_per_read, len(rec.got) - before)
       if r is False:
         fire("connection dropped on well-formed input",
              "read() returned False after %d bytes" % sock.pulled)
-        ok = False; break
+        self.ok = False; break
       P = sock.pulled
       # messages wholly contained in the pulled prefix
       k = 0
@@ -196,26 +220,107 @@ def run_case (case, rep):
           what = "delivered message differs"
         j = 0
         while j < min(n, k) and rec.got[j] == exp[j]: j += 1
-        fire(what, "after pulling %d of %d bytes (cuts %r): delivered %d "
+        fire(what, "%safter pulling %d of %d bytes: delivered %d "
              "messages, %d are complete; first mismatch at #%d: got %s "
-             "expected %s" % (P, len(stream), cuts, n, k, j,
+             "expected %s" % (self.tag and "connection %s: " % self.tag, P, len(stream), n, k, j,
                               rec.got[j][:24].hex() if j < n else None,
                               msgs[j][:24].hex() if j < len(msgs) else None))
-        ok = False; break
-      res = residual()
+        self.ok = False; break
+      res = self.residual()
       if res != stream[bounds[k]:P]:
         fire("residual buffer is not the incomplete tail",
-             "after %d bytes: residual %d bytes, expected %d" %
-             (P, len(res), P - bounds[k]))
-        ok = False; break
-      if P > bounds[k]: rep.count("held_partial")
-    if not ok: break
-  if ok and rec.got != exp:
-    fire("final delivery differs", "%d of %d" % (len(rec.got), len(msgs)))
-  rep.count("delivered", len(rec.got))
+             "%safter %d bytes: residual %d bytes, expected %d" %
+             (self.tag and "connection %s: " % self.tag, P, len(res), P - bounds[k]))
+        self.ok = False; break
+      if P > bounds[k]: self.rep.count("held_partial")
+    return self.ok
+
+  def holds_partial (self):
+    P = self.sock.pulled
+    return any(self.bounds[i] < P < self.bounds[i + 1] for i in range(len(self.msgs)))
+
+  def finish (self):
+    if self.ok and self.rec.got != self.exp:
+      self.fire("final delivery differs", "%d of %d" % (len(self.rec.got), len(self.msgs)))
+      self.ok = False
+    self.rep.count("delivered", len(self.rec.got))
+    if self.rec.raised: self.rep.count("handlers_that_raised", self.rec.raised)
+    self.rep.maxi("%s_messages_completed_by_one_read" % self.side, self.max_per_read)
+    if self.max_per_read >= (256 if self.side == "ctl" else 1024):
+      self.rep.count("%s_reads_filled_with_header_only_messages" % self.side)
+
+
+def segments (stream, cuts):
+  segs = []; prev = 0
+  for c in cuts + [len(stream)]:
+    segs.append(stream[prev:c]); prev = c
+  return segs
+
+
+def run_case (case, rep):
+  side = case["side"]
+  msgs = make_stream(side, case["seed"], case.get("big", False))
+  stream = b"".join(msgs)
+  if [delivered_form(m) for m in msgs] != msgs: rep.count("hello_with_body")
+  cuts = sorted(set(c for c in case["cuts"] if 0 < c < len(stream)))
+  bounds = [0]
+  for m in msgs: bounds.append(bounds[-1] + len(m))
+  def fire (key, what):
+    rep.violation("C02 %s %s" % (side, key), what + " (cuts %r)" % (cuts[:12],), case)
+  raise_at = ()
+  if case.get("raise_at"):
+    raise_at = [i % len(msgs) for i in case["raise_at"]]
+  ep = Endpoint(side, msgs, rep, fire, connecting=case.get("connecting", False),
+                raise_at=raise_at)
+  # classify cuts
+  inside_hdr = inside_body = 0
+  for c in cuts:
+    for i in range(len(msgs)):
+      if bounds[i] < c < bounds[i + 1]:
+        if c - bounds[i] < 8: inside_hdr += 1
+        else: inside_body += 1
+  if inside_hdr: rep.count("cuts_inside_header", inside_hdr)
+  if inside_body: rep.count("cuts_inside_body", inside_body)
+  if len(stream) > 2048 and side == "ctl": rep.count("over_2048")
+  if len(stream) > 8192 and side == "sw": rep.count("sw_over_8192")
+  for seg in segments(stream, cuts):
+    if not ep.feed(seg): break
+  ep.finish()
   rep.count("ctl_cases" if side == "ctl" else "sw_cases")
-  rep.case(("%s|%s|%r" % (side, case["seed"], cuts)).encode(),
+  rep.case(("%s|%s|%r|%r|%r" % (side, case["seed"], cuts, case.get("connecting"),
+                                case.get("raise_at"))).encode(),
            nontrivial=bool(inside_hdr or inside_body))
+
+
+def run_multi (case, rep):
+  """
+  Several connections of one side alive at once, their segments interleaved,
+  so that more than one of them holds an incomplete message at the same
+  moment: what one connection has buffered must never show up in another.
+  """
+  side = case["side"]
+  def fire (key, what):
+    rep.violation("C02 %s %s (several connections at once)" % (side, key), what, case)
+  eps = []; queues = []
+  for i, (seed, cuts) in enumerate(zip(case["seeds"], case["cutsets"])):
+    msgs = make_stream(side, seed, False)
+    ep = Endpoint(side, msgs, rep, fire, tag=str(i))
+    cs = sorted(set(c for c in cuts if 0 < c < len(ep.stream)))
+    eps.append(ep); queues.append(segments(ep.stream, cs))
+  order = list(case["order"])
+  oi = 0
+  while any(queues):
+    i = order[oi % len(order)] % len(eps); oi += 1
+    if not queues[i]:
+      i = next(j for j in range(len(eps)) if queues[j])
+    seg = queues[i].pop(0)
+    if not eps[i].feed(seg): break
+    if sum(1 for e in eps if e.holds_partial()) >= 2:
+      rep.count("moments_with_several_partial_messages")
+  for e in eps: e.finish()
+  rep.count("multi_connection_cases")
+  rep.case(repr(("multi", side, case["seeds"], case["cutsets"], order)).encode(),
+           nontrivial=True)
 
 
 # ---------------------------------------------------------------------------
@@ -345,11 +450,23 @@ def run_hs (case, rep):
     ("flow_removed", e.ofp.cookie)))
   con.addListenerByName("ErrorIn", lambda e: got.append(("error", e.xid)))
   con.addListenerByName("BarrierIn", lambda e: got.append(("barrier_reply", e.xid)))
-  peer.feed(ofwire.enc_message("hello", dict(xid=0)))
-  peer.sent_messages()
-  peer.feed(ofwire.enc_message("features_reply", dict(
+  hello = ofwire.enc_message("hello", dict(xid=0))
+  feat = ofwire.enc_message("features_reply", dict(
     xid=1, datapath_id=case.get("dpid", 0x2002), n_buffers=0, n_tables=1,
-    capabilities=0, actions=0xfff, ports=[ctl.phy_port(n) for n in (1, 2, 3, 4)])))
+    capabilities=0, actions=0xfff, ports=[ctl.phy_port(n) for n in (1, 2, 3, 4)]))
+  pc = case.get("prefix_cuts")
+  if pc is None:
+    peer.feed(hello)
+    peer.sent_messages()
+    peer.feed(feat)
+  else:
+    # hello, features reply and the early port-status messages as one stream,
+    # cut anywhere (a switch that answers at once sends them back to back)
+    pre = hello + feat
+    rep.count("handshake_prefixes_segmented")
+    for seg in segments(pre, sorted(set(c for c in pc if 0 < c < len(pre)))):
+      if not peer.feed(seg):
+        fire("connection closed by valid traffic", "in the handshake prefix"); return
   bx = None
   for m in peer.sent_messages():
     if m["name"] == "barrier_request": bx = m["xid"]
@@ -390,7 +507,7 @@ def run_hs (case, rep):
     con.disconnect()
   except Exception:
     pass
-  rep.case(repr(("hs", case["seed"], cuts)).encode(), nontrivial=bool(cuts))
+  rep.case(repr(("hs", case["seed"], cuts, pc)).encode(), nontrivial=bool(cuts))
 
 
 def gen_cases (spec):
@@ -407,11 +524,30 @@ def gen_cases (spec):
         yield dict(base, cuts=sorted(rng.randrange(1, L)
                                      for _ in range(rng.randrange(1, 4))))
       yield dict(base, cuts=list(range(1, L)))
+      P = 8 + 32 + 48 * 4
+      yield dict(base, cuts=[], prefix_cuts=[])
+      yield dict(base, cuts=[rng.randrange(1, L)], prefix_cuts=[8])
+      for _ in range(2):
+        yield dict(base, cuts=sorted(rng.randrange(1, L) for _ in range(rng.randrange(0, 3))),
+                   prefix_cuts=sorted(rng.randrange(1, P) for _ in range(rng.randrange(1, 4))))
+    return
+  if mode == "multi":
+    for si in range(spec["streams"]):
+      side = ("ctl", "sw")[si % 2]
+      k = rng.choice([2, 2, 3])
+      seeds = ["%d/%d/%d/multi%d" % (spec["seed"], spec["sub"], si, j) for j in range(k)]
+      cutsets = []
+      for sd in seeds:
+        L = sum(len(m) for m in make_stream(side, sd, False))
+        cutsets.append(sorted(rng.randrange(1, max(2, L))
+                              for _ in range(rng.randrange(1, 8))))
+      yield dict(kind="multi", side=side, seeds=seeds, cutsets=cutsets,
+                 order=[rng.randrange(k) for _ in range(16)], cuts=[1])
     return
   for si in range(spec["streams"]):
     side = ("ctl", "sw")[si % 2]
     seed = "%d/%d/%d/%s" % (spec["seed"], spec["sub"], si, mode)
-    big = mode if mode in ("many", "huge") else mode in ("big",)
+    big = mode if mode in ("many", "huge", "tiny") else mode in ("big",)
     msgs = make_stream(side, seed, big)
     L = sum(len(m) for m in msgs)
     bounds = [0]
@@ -434,6 +570,11 @@ def gen_cases (spec):
         yield dict(base, cuts=[b + d for b in bounds[1:-1]])
       for _ in range(spec.get("rand", 4)):
         yield dict(base, cuts=sorted(rng.randrange(1, L) for _ in range(rng.randrange(1, 40))))
+    elif mode == "tiny":
+      yield dict(base, cuts=[])
+      yield dict(base, cuts=[2048, 4096])
+      yield dict(base, cuts=[8192 + 3])
+      yield dict(base, cuts=sorted(rng.randrange(1, L) for _ in range(3)))
     elif mode == "many":
       yield dict(base, cuts=[])                        # one giant segment
       yield dict(base, cuts=[bounds[len(bounds) // 2]])
@@ -464,6 +605,15 @@ def gen_cases (spec):
         k = rng.randrange(1, 12)
         yield dict(base, cuts=sorted(rng.randrange(1, max(2, L))
                                      for _ in range(k)))
+      # handlers that fail, with more messages behind them in the same read
+      for _ in range(3):
+        yield dict(base, cuts=sorted(rng.randrange(1, max(2, L))
+                                     for _ in range(rng.randrange(0, 3))),
+                   raise_at=[rng.randrange(64) for _ in range(rng.randrange(1, 4))])
+      if side == "sw":
+        # the first read finds the connection still being established
+        for c in ([], [1], [3], [7], [8, 9], [rng.randrange(1, max(2, L))]):
+          yield dict(base, cuts=c, connecting=True)
 
 
 def plan (tier, seed):
@@ -475,6 +625,8 @@ def plan (tier, seed):
     sp += [dict(mode="many", streams=40, sub=i, rand=6) for i in range(2)]
     sp += [dict(mode="hs", streams=150, sub=i, rand=6) for i in range(2)]
     sp += [dict(mode="huge", streams=6, sub=i, rand=3) for i in range(2)]
+    sp += [dict(mode="multi", streams=400, sub=i) for i in range(2)]
+    sp += [dict(mode="tiny", streams=12, sub=i) for i in range(2)]
     return sp
   sp = [dict(mode="cut1", streams=150, sub=i) for i in range(16)]
   sp += [dict(mode="cut2", streams=400, sub=i, maxlen=140) for i in range(16)]
@@ -483,6 +635,8 @@ def plan (tier, seed):
   sp += [dict(mode="many", streams=1500, sub=i, rand=20) for i in range(8)]
   sp += [dict(mode="hs", streams=6000, sub=i, rand=12) for i in range(8)]
   sp += [dict(mode="huge", streams=150, sub=i, rand=10) for i in range(8)]
+  sp += [dict(mode="multi", streams=20000, sub=i) for i in range(8)]
+  sp += [dict(mode="tiny", streams=300, sub=i) for i in range(4)]
   return sp
 
 
@@ -492,14 +646,17 @@ def run (spec, rep):
   for case in gen_cases(spec):
     try:
       if case.get("kind") == "hs": run_hs(case, rep)
+      elif case.get("kind") == "multi": run_multi(case, rep)
       else:
         run_case(case, rep)
-        if case["side"] == "sw" and case["cuts"] and len(case["cuts"]) < 40:
+        if case["side"] == "sw" and case["cuts"] and len(case["cuts"]) < 40 \
+           and not case.get("raise_at") and not case.get("connecting") \
+           and case.get("big") != "tiny":
           run_reentrant(case, rep)
     except Exception:
       rep.violation("C02 harness-visible exception",
                     traceback.format_exc()[-900:], case)
-    if first and case["cuts"] and case.get("kind") != "hs":
+    if first and case["cuts"] and case.get("kind") not in ("hs", "multi"):
       rep.sample(dict(case=case, stream_len=sum(
         len(m) for m in make_stream(case["side"], case["seed"],
                                     case.get("big", False)))))
@@ -509,6 +666,9 @@ def run (spec, rep):
 def replay (witness, rep):
   boot()
   if witness.get("kind") == "hs": run_hs(witness, rep)
+  elif witness.get("kind") == "multi": run_multi(witness, rep)
   else:
     run_case(witness, rep)
-    if witness["side"] == "sw" and witness["cuts"]: run_reentrant(witness, rep)
+    if witness["side"] == "sw" and witness["cuts"] and not witness.get("raise_at") \
+       and not witness.get("connecting"):
+      run_reentrant(witness, rep)
